@@ -29,7 +29,7 @@ def _verify_one(args):
     W = World(REPO)
     if kind == 'fn':
       c = [c for c in R.for_prop(prop) if c.key == name][0]
-      r = verify_function(W, R, c, prop, timeout_ms, recheck=recheck)
+      r = verify_function(W, R, c, prop, timeout_ms, recheck=recheck, sample=recheck)
       extra = dict(replay=c.replay, bounded=c.bounded, note=c.note)
     else:
       l = [l for l in R.lemmas if l.name == name and l.prop == prop][0]
@@ -38,7 +38,7 @@ def _verify_one(args):
     return dict(
         kind=kind, target=r.target, status=r.status, error=r.error, paths=r.paths, secs=round(r.secs, 3),
         hash=r.hash, lines=r.lines, inlined=sorted(r.inlined), used_contracts=sorted(r.used_contracts),
-        dropped=sorted(r.dropped), exits=r.exits, covers=r.covers, **extra,
+        dropped=sorted(r.dropped), exits=r.exits, covers=r.covers, samples=getattr(r, 'samples', []), **extra,
         obligations=[dict(name=o.name, kind=o.kind, result=o.result, secs=round(o.secs, 4), backend=o.backend,
                           text=o.info.get('text'), loopfree=o.loopfree, abstracted=o.abstracted, cvc5=o.info.get('cvc5'),
                           witness=o.info.get('witness'), model=o.info.get('model')) for o in r.obligations])
@@ -125,6 +125,9 @@ def main(argv=None):
   all_ids = sorted({o['name'] for r in results for o in r['obligations']})
   if a.update_baseline:
     bad = [r for r in results if r['status'] != 'proved']
+    if bad:        # never shrink the baseline to what happens to verify: fix the contract / engine first
+      print(f'baseline NOT written: not proved: {[(r["target"], r["status"], (r["error"] or "")[:120]) for r in bad]}')
+      return 3
     json.dump(dict(property=prop, clause_ids=discharged_ids,
                    functions={r['target']: r['hash'] for r in results}), open(bpath, 'w'), indent=1)
     print(f'baseline written: {len(discharged_ids)} clause ids; not proved: {[(r["target"], r["status"]) for r in bad]}')
@@ -238,6 +241,7 @@ def main(argv=None):
   # ---- thorough: independent re-proof by cvc5 (done in the workers) and mutation self-test of the contracts ----
   cross = None
   mutation = None
+  cpy = None
   if tier == 'thorough' and jobs:
     rechecked = [o for r in results for o in r['obligations'] if o['result'] == 'unsat' and o['backend'] != 'cvc5']
     agree = sum(1 for o in rechecked if o.get('cvc5') == 'unsat')
@@ -245,6 +249,17 @@ def main(argv=None):
     cross = dict(rechecked=len(rechecked), cvc5_unsat=agree, cvc5_no_answer=sum(1 for o in rechecked if o.get('cvc5') is None), cvc5_sat=disagree)
     for name in disagree:          # the two solvers contradict each other: nothing this run says can be trusted
       broken.append(f'z3 discharged {name} but cvc5 finds a model')
+    # engine vs CPython: for every returning path of a function over scalars / flat records a model of the path
+    # condition gives concrete inputs and the engine's predicted result; the real function is run natively on them
+    work = [dict(target=r['target'].split('#')[0], inputs=s_['inputs'], predicted=s_['predicted'])
+            for r in results if r['kind'] == 'fn' for s_ in r.get('samples', [])]
+    if work:
+      rr = native('crosscheck', 'crosscheck', dict(cases=work))
+      cpy = dict(cases=len(work), agree=rr.get('agree'), skipped=rr.get('skipped'), disagree=rr.get('disagree', [])[:5], error=rr.get('error'))
+      for d_ in rr.get('disagree', []):
+        broken.append(f'engine and CPython disagree on {d_}')
+    else:
+      cpy = None
     try:
       sys.path.insert(0, os.path.join(VERIF, 'tools'))
       import mutation_selftest
@@ -324,6 +339,8 @@ def main(argv=None):
     coverage['cvc5_cross_check'] = cross
   if mutation is not None:
     coverage['mutation_self_test'] = mutation
+  if cpy is not None:
+    coverage['cpython_cross_check'] = cpy
   level = 'proof'
   if not jobs:
     # no function of this property is under contract (yet): the bounded stand-ins are all there is
